@@ -34,6 +34,8 @@ def _stats(ck, files, key):
 
 
 def _run(ck, owner, plan, key):
+    if ck.pid in REGISTER:          # stand-alone: the spec emits the obligations under the stand-alone id
+        owner = ck.pid
     binary = vlib.build_harness()
     files, cmds = [], []
     for i, (drv, args) in enumerate(plan):
@@ -43,7 +45,10 @@ def _run(ck, owner, plan, key):
         cmds.append(" ".join(map(str, res["cmd"])))
     ck.sample_from(files[:2], n=2)
     results = vlib.validate(MODULE, files, acts=[owner], jobs=JVMS)
+    n0 = len(ck.violations)
     ck.add_validation(results, driver_cmd=cmds, owner=owner)
+    for v in ck.violations[n0:]:
+        v["replay"]["module"] = MODULE      # ./check <id> --replay <file> re-validates with this trace module
     _stats(ck, files, key)
     wall = sum(r["wall"] for r in results) or 1.0
     total = sum((r["total"] or 0) for r in results)
